@@ -267,21 +267,21 @@ Print Assumptions jar_unique.
    (3xx-5xx, e.g. a 500 SOAP fault) are dropped because getcookies() is only reached after
    u2open() returned - reply_cookies_stored_refuted, reported by the harness as the known finding
    C15:cookies-of-error-replies-dropped.  Guarded form: *)
-Theorem reply_cookies_stored_partial : forall P k c j prev q p,
+Theorem reply_cookies_stored_partial : forall P k c j prev pm q p,
   p_challenge p = None -> is_2xx (p_status p) = true ->
-  snd (model_step P k c j prev q p) = fold_left jar_apply (map (resolve (q_path q)) (p_cookies p)) j.
+  snd (model_step P k c j prev pm q p) = fold_left jar_apply (map (resolve (q_path q)) (p_cookies p)) j.
 Proof. exact delivered_replies_update_jar_l. Qed.
 Print Assumptions reply_cookies_stored_partial.
 
 Theorem reply_cookies_stored_refuted :
-  exists P k c j prev q p,
+  exists P k c j prev pm q p,
     p_challenge p = None /\ p_cookies p <> [] /\
-    snd (model_step P k c j prev q p) <> fold_left jar_apply (map (resolve (q_path q)) (p_cookies p)) j.
+    snd (model_step P k c j prev pm q p) <> fold_left jar_apply (map (resolve (q_path q)) (p_cookies p)) j.
 Proof. exact reply_cookies_stored_refuted_l. Qed.
 Print Assumptions reply_cookies_stored_refuted.
 
-Theorem error_replies_leave_jar : forall P k c j prev q p,
-  p_challenge p = None -> is_2xx (p_status p) = false -> snd (model_step P k c j prev q p) = j.
+Theorem error_replies_leave_jar : forall P k c j prev pm q p,
+  p_challenge p = None -> is_2xx (p_status p) = false -> snd (model_step P k c j prev pm q p) = j.
 Proof. exact error_replies_leave_jar_l. Qed.
 Print Assumptions error_replies_leave_jar.
 
@@ -337,3 +337,41 @@ Example writeback_nonvacuous :
      ([83; 111; 97; 112; 97; 99; 116; 105; 111; 110]%N, [49]%N); ([88; 45; 97]%N, [50]%N)].
      (* {"SOAPAction": "1", "x-a": "2"} gains "Soapaction": "1" and "X-a": "2" *)
 Proof. reflexivity. Qed.
+
+(* ------------------------------------------------------------------ *)
+(* challenge-response credentials across a history of sends            *)
+(* ------------------------------------------------------------------ *)
+From SV Require Import C15.PmProofs.
+
+(* "the server recovers exactly the username and password" configured AT THE TIME of the
+   request is false of the faithful model for the challenge-response transport: its one urllib
+   password manager answers with the first entry that is the URL or a path prefix of it, so
+   credentials first used for /svc and then changed are still sent to /svc/op -
+   challenge_credentials_refuted, reported by the harness as C15:stale-credentials-for-deeper-path.
+   Guarded form (no entry for another, shorter path stands in front): *)
+Theorem challenge_credentials_partial : forall P u pw j prev pm q p cb,
+  p_challenge p = Some cb ->
+  has_key l_authorization (u2_headers (start_headers P prev q)) = false ->
+  pm_clear (q_path q) pm = true ->
+  let m := fst (model_step P TChallenge (Some u, Some pw) j prev pm q p) in
+  m_conns m = 2%N /\ dict_get l_authorization (m_hdrs m) = Some (authorization std_alphabet u pw).
+Proof. exact challenge_credentials_partial_l. Qed.
+Print Assumptions challenge_credentials_partial.
+
+Theorem challenge_credentials_refuted :
+  exists path pm u p, pm_find path (pm_add path u p pm) <> Some (u, p).
+Proof. exact challenge_credentials_refuted_l. Qed.
+Print Assumptions challenge_credentials_refuted.
+
+(* any number of credential changes while the URL stays the same: the manager always finds the
+   pair configured last (a transport that registered credentials only once would not) *)
+Theorem same_url_history : forall path changes u p,
+  pm_find path (pm_add path u p (pm_history path changes)) = Some (u, p).
+Proof. exact same_url_history_l. Qed.
+Print Assumptions same_url_history.
+
+Example pm_nonvacuous :
+  let svc := [47; 115]%N in
+  pm_clear svc (pm_history svc [([97]%N, [49]%N); ([97]%N, [50]%N)]) = true /\
+  pm_find svc (pm_add svc [98]%N [51]%N (pm_history svc [([97]%N, [49]%N)])) = Some ([98]%N, [51]%N).
+Proof. split; reflexivity. Qed.
